@@ -101,10 +101,19 @@ def make_readers(rng, tle):
         samples += [300 + p % 200, 310 + p % 150, 500 + (7 * p) % 300, 600 + p % 250, 620 + p % 250]
     start_pod = datetime.datetime(2001, 3, 4, 23, 59, 40)
     lines = l1b.default_lines("gac_pod", 90, start_pod, counts=samples, first=rng.choice([1, 3]))
+    lines[17]["prt"] = [0, 0, 0]
+    lines[18]["prt"] = [0, 0, 0]
+    lines[40]["ict"] = [0] * 30
+    lines[55]["space"] = [0] * 50
     configs.append(("gac_pod", l1b.build_file("gac_pod", "noaa14", start_pod, lines), dict(tle_dir=tle_dir, tle_name=tle_name, tle_thresh=40000)))
     start_klm = datetime.datetime(2003, 5, 6, 7, 8, 9)
     lines = l1b.default_lines("gac_klm", 80, start_klm, counts=samples, switch=[i % 3 for i in range(80)],
                               qual=[(1 << 31) if i in (7, 30) else 0 for i in range(80)])
+    # telemetry drop-outs (the thermal calibration repairs such readings: it must do so on its own copy)
+    lines[12]["prt"] = [0, 0, 0] if lines[12]["prt"] != [0, 0, 0] else lines[12]["prt"]
+    lines[13]["prt"] = [0, 0, 0]
+    lines[21]["ict"] = [0] * 30
+    lines[33]["space"] = [0] * 50
     klm_bytes = l1b.build_file("gac_klm", "noaa16", start_klm, lines)
     configs.append(("gac_klm", klm_bytes, dict(tle_dir=tle_dir, tle_name=tle_name, tle_thresh=40000)))
     for s0 in (2.0, 4.0):   # the same overridden entry with different values
